@@ -109,7 +109,14 @@ func (g *Gen) tplCoroutines() []L.Stmt {
 				g.class("co:resume_running")
 			case 7:
 				if g.n(2, "coerr") == 0 {
-					switch g.n(3, "coerrkind") {
+					switch g.n(5, "coerrkind") {
+					case 3:
+						// the coroutine dies because a host function fills its value stack / its call stack
+						body = append(body, callStmt(call(name("hostregoverflow"))), emit(str(cn+" went on after the overflow")))
+						g.class("co:dies_of_registry_overflow")
+					case 4:
+						body = append(body, callStmt(call(name("hoststackoverflow"))), emit(str(cn+" went on after the overflow")))
+						g.class("co:dies_of_stack_overflow")
 					case 0:
 						body = append(body, ifs(bin("==", name("loc"), name("loc")), blk(callStmt(call(name("error"), tbl(kv(str("from"), str(cn)))))), nil))
 					case 1:
@@ -153,6 +160,22 @@ func (g *Gen) tplCoroutines() []L.Stmt {
 		if g.n(4, "usefns") == 0 {
 			out = append(out, useFns("closure during drive"))
 		}
+	}
+	if g.n(3, "hostdriven") == 0 {
+		// a coroutine driven by the host through the Go API (NewThread + Resume until it is dead; the host checks its own
+		// stack height around every Resume): ends normally, by error(), or by a VM fault
+		g.class("co:driven_through_go_resume")
+		var end []L.Stmt
+		switch g.n(3, "hostdrivenend") {
+		case 0:
+			end = []L.Stmt{ret(str("host-driven done"), name("a"))}
+		case 1:
+			end = []L.Stmt{callStmt(call(name("error"), tbl(kv(str("host"), str("driven")))))}
+		default:
+			end = []L.Stmt{local1("nz", &L.NilExpr{}), ret(field(name("nz"), "fld"))}
+		}
+		hb := fn([]string{"a"}, true, blk(append([]L.Stmt{emit(str("host-driven starts"), name("a"), &L.VarargExpr{}), emit(str("host-driven resumed with"), co("yield", num(1), num(2))), emit(str("again"), call(name("hostyield"), str("x")))}, end...)...))
+		out = append(out, emit(str("hostresume gives"), call(name("hostresume"), append([]L.Expr{hb}, g.payload("hr")...)...)), emit(str("main after hostresume"), co("running")))
 	}
 	out = append(out, useFns("closure after drive"))
 	for pass := 0; pass < 2; pass++ {
